@@ -6,9 +6,43 @@
 //   af k n           handle k := block of n    (api: register_gradients(n); obj: new active FixedArray<n>), n in 1..4
 //   d k              release handle k          (api: unregister_gradient / unregister_gradients; obj: delete)
 //   nr               new_recording()
+//   rs k n           handle k (a block made by `av`) := block of n, the old block released first
+//                    (api: unregister_gradients then register_gradients(n); obj: aVector::resize(n))
+//   avx k n          an attempt to make a block of n whose DATA allocation fails with std::bad_alloc (fault injected below):
+//                    nothing is registered and handle k does not come to exist (api: nothing; obj: new aVector(n) throws)
+//   rsx k n          resize of handle k to n whose data allocation fails: the old block is released, nothing is registered,
+//                    the emptied object is destroyed (api: unregister_gradients; obj: resize(n) throws, delete)
 // one observation line per op (same text as Adept.GradAlloc.observe)
 #include "spy.h"
 #include <map>
+#include <malloc.h>
+#include <cerrno>
+#include <new>
+
+// ---- fault injection: the two allocation functions internal::alloc_aligned may call are interposed; only the next data
+// allocation made while g_fail_next is set (one library operation) fails.
+static bool g_fail_next = false;
+static long g_fired = 0;
+static bool fault_now(size_t bytes) {
+  if (!g_fail_next || bytes > 8192) return false;
+  g_fail_next = false; ++g_fired;
+  return true;
+}
+void* operator new[](std::size_t sz) {
+  if (fault_now(sz)) throw std::bad_alloc();
+  void* p = std::malloc(sz ? sz : 1);
+  if (!p) throw std::bad_alloc();
+  return p;
+}
+void operator delete[](void* p) noexcept { std::free(p); }
+void operator delete[](void* p, std::size_t) noexcept { std::free(p); }
+extern "C" int posix_memalign(void** out, size_t alignment, size_t size) {
+  if (fault_now(size)) return ENOMEM;
+  void* p = memalign(alignment, size ? size : 1);
+  if (!p) return ENOMEM;
+  *out = p;
+  return 0;
+}
 using namespace adept;
 using verif::SpyStack;
 
@@ -79,6 +113,38 @@ int main(int argc, char** argv) {
     } else if ((w[0] == "pause" || w[0] == "cont") && w.size() == 1) {
       // registration must not depend on whether recording is paused (pausable builds; no-ops otherwise)
       if (w[0] == "pause") st->pause_recording(); else st->continue_recording();
+      std::cout << st->alloc_line(0, false) << "\n";
+    } else if (w[0] == "rs" && w.size() == 3) {
+      long k = atol(w[1].c_str()); int n = atoi(w[2].c_str());
+      if (!tab.count(k) || tab[k].kind != 2 || n < 1) { std::cout << "bad-op\n"; continue; }
+      Obj& o = tab[k];
+      if (obj) { o.v->resize(n); o.idx = o.v->gradient_index(); }
+      else { st->unregister_gradients(o.idx, o.n); o.idx = st->register_gradients(n); }
+      o.n = n;
+      std::cout << st->alloc_line(o.idx, true) << "\n";
+    } else if (w[0] == "avx" && w.size() == 3) {
+      int n = atoi(w[2].c_str());
+      if (n < 1) { std::cout << "bad-op\n"; continue; }
+      if (obj) {
+        aVector* v = 0; bool threw = false;
+        g_fail_next = true;
+        try { v = new aVector(n); } catch (const std::bad_alloc&) { threw = true; }
+        g_fail_next = false;
+        if (!threw) { delete v; std::cout << "fault-not-delivered\n"; continue; }
+      }
+      std::cout << st->alloc_line(0, false) << "\n";
+    } else if (w[0] == "rsx" && w.size() == 3) {
+      long k = atol(w[1].c_str()); int n = atoi(w[2].c_str());
+      if (!tab.count(k) || tab[k].kind != 2 || n < 1) { std::cout << "bad-op\n"; continue; }
+      Obj o = tab[k]; tab.erase(k);
+      if (obj) {
+        bool threw = false;
+        g_fail_next = true;
+        try { o.v->resize(n); } catch (const std::bad_alloc&) { threw = true; }
+        g_fail_next = false;
+        delete o.v;
+        if (!threw) { std::cout << "fault-not-delivered\n"; continue; }
+      } else st->unregister_gradients(o.idx, o.n);
       std::cout << st->alloc_line(0, false) << "\n";
     } else if (w[0] == "nr" && w.size() == 1) {
       st->new_recording();
